@@ -39,6 +39,10 @@ type Mode struct {
 type Scenario struct {
 	Cmds []Cmd `json:"cmds"`
 	Mode Mode  `json:"mode"`
+	// Cancel: the first command does not fail on its own account; it has written its output and is still running
+	// (sleep) when a sibling without output fails, so that it ends by cancellation. For the specification that is
+	// a failing command like any other: what it wrote is not lost.
+	Cancel bool `json:"cancel,omitempty"`
 }
 
 func b2s(b bool) string {
@@ -133,8 +137,14 @@ func (s Scenario) Taskfile() string {
 		}
 		b.WriteString(c.ID)
 	}
+	if s.Cancel {
+		b.WriteString(", zz")
+	}
 	b.WriteString("]\n")
-	for _, c := range s.Cmds {
+	if s.Cancel {
+		b.WriteString("  zz:\n    cmds:\n      - cmd: \"sleep 0.4; exit 3\"\n")
+	}
+	for ci, c := range s.Cmds {
 		var parts []string
 		for _, ch := range c.Chunks {
 			txt := ""
@@ -147,7 +157,9 @@ func (s Scenario) Taskfile() string {
 			}
 			parts = append(parts, "printf '"+txt+"'")
 		}
-		if c.Fail {
+		if s.Cancel && ci == 0 {
+			parts = append(parts, "sleep 1.2") // outlives the failing sibling (0.4 s); ends by itself even where SIGINT is ignored
+		} else if c.Fail {
 			parts = append(parts, "exit 1")
 		}
 		if len(parts) == 0 {
@@ -385,6 +397,10 @@ func Scenarios(r *rand.Rand, n int) []Scenario {
 		scs = append(scs, Scenario{Mode: m, Cmds: []Cmd{{ID: "a", Chunks: chunkings("a")[8]}, {ID: "b", Chunks: chunkings("b")[9], Fail: true}}})
 		scs = append(scs, Scenario{Mode: m, Cmds: []Cmd{{ID: "a", Chunks: chunkings("a")[8], Fail: true}, {ID: "b", Chunks: chunkings("b")[10]}}})
 	}
+	// cancellation: what a command has written is not lost when it is cancelled by a failing sibling
+	for _, m := range modes {
+		scs = append(scs, Scenario{Mode: m, Cancel: true, Cmds: []Cmd{{ID: "a", Chunks: chunkings("a")[2], Fail: true}, {ID: "b", Chunks: chunkings("b")[0]}}})
+	}
 	for len(scs) < n {
 		m := modes[r.Intn(len(modes))]
 		nc := 2 + r.Intn(2)
@@ -408,7 +424,7 @@ func Check(tier string) int {
 	rp := rep.NewReporter("C17")
 	kf := rep.LoadFindings()
 	OpenKFs = kf.OpenKFsOf("out")
-	nsc, dfs, nseeds := 36, 40, 2
+	nsc, dfs, nseeds := 44, 40, 2
 	if tier == "thorough" {
 		nsc, dfs, nseeds = 150, 400, 6
 	}
@@ -432,7 +448,11 @@ func Check(tier string) int {
 		for k := 0; k < nseeds; k++ {
 			seeds = append(seeds, uint64(seed)*131+uint64(i)*17+uint64(k)+1)
 		}
-		rs, ex := explore(s, dfs, seeds)
+		d := dfs
+		if s.Cancel { // each run lasts more than a second: a handful of release orders
+			d, seeds = 5, nil
+		}
+		rs, ex := explore(s, d, seeds)
 		if ex {
 			exh++
 		}
